@@ -140,7 +140,7 @@ Section WithBody.
     - destruct (0 <? cdelay c).
       + cbn [hp nw cancels]. destruct (heappush_spec call ctime dcall h' (activate c) Hh') as [Pq _].
         assert (Ea : active (activate c) = true) by (unfold active, activate; cbn [ccanc]; rewrite Ec; reflexivity).
-        rewrite ncanc_app, (ncanc_perm _ _ Pq), ncanc_cons, Ea. rewrite ncanc_app in E. lia.
+        rewrite ncanc_app, (ncanc_perm _ _ Pq), ncanc_cons, Ea. rewrite (ncanc_app h') in E. lia.
       + cbn zeta. apply Cnt_emit. apply Cnt_exec_body. unfold Cnt. cbn [hp nw cancels]. lia.
   Qed.
 
